@@ -38,7 +38,7 @@ DOCUMENTED = ['application/json', 'application/json-rpc', 'application/jsonreque
 FLOORS = {'*': {**{f'{i}:{t}': 10 for i in INTEGRATIONS for t in DOCUMENTED},
                 **{f'{i}:{t}+params': 10 for i in INTEGRATIONS for t in DOCUMENTED},
                 **{f'{i}:refused-type': 30 for i in INTEGRATIONS}, **{f'{i}:empty-reply': 5 for i in INTEGRATIONS},
-                'status:non-200': 50, 'status:without-a-registered-reason-phrase': 30, 'host-application-read-the-body-first': 100, 'endpoint:added': 50, 'endpoint:added-sub': 50, 'endpoint:added-bp': 50, 'endpoint:sub-application': 50, 'charset:non-utf8-declared': 30, 'cross-integration-comparisons': 200, 'non-utf8-bodies': 10}}
+                'status:non-200': 50, 'process-wide-default-content-type-changed': 100, 'body-starts-with-a-byte-order-mark': 10, 'status:without-a-registered-reason-phrase': 30, 'host-application-read-the-body-first': 100, 'endpoint:added': 50, 'endpoint:added-sub': 50, 'endpoint:added-bp': 50, 'endpoint:sub-application': 50, 'charset:non-utf8-declared': 30, 'cross-integration-comparisons': 200, 'non-utf8-bodies': 10}}
 
 STATUS_TABLE = {-32700: 400, -32600: 400, -32601: 404, -32602: 422, -32000: 500, -32603: 500}
 # valid HTTP status codes (three digits, classes 2xx / 4xx / 5xx) that no registry assigns a reason phrase to
@@ -259,7 +259,20 @@ def media_class(mt):
     return 'other', None
 
 
-def run_post(ctx, root, status_kind, path_key, media_type, body_hex, family):
+def run_post(ctx, root, status_kind, path_key, media_type, body_hex, family, default_ct=None):
+    """default_ct: the serving process has chosen another default content type (pjrpc.set_default_content_type): that is the
+    type its replies carry; the documented request types stay the documented request types"""
+    if default_ct is None:
+        return _run_post(ctx, root, status_kind, path_key, media_type, body_hex, family, 'application/json')
+    pjrpc.set_default_content_type(default_ct)
+    try:
+        ctx.hit('process-wide-default-content-type-changed')
+        return _run_post(ctx, root, status_kind, path_key, media_type, body_hex, family, default_ct)
+    finally:
+        pjrpc.set_default_content_type('application/json')
+
+
+def _run_post(ctx, root, status_kind, path_key, media_type, body_hex, family, reply_ct):
     body = bytes.fromhex(body_hex)
     charset = declared_charset(media_type)
     if charset not in ('utf-8', 'utf8'):
@@ -269,6 +282,8 @@ def run_post(ctx, root, status_kind, path_key, media_type, body_hex, family):
     except (UnicodeDecodeError, LookupError):
         text = None
     mclass, main = media_class(media_type)
+    if body.startswith(b'\xef\xbb\xbf'):
+        ctx.hit('body-starts-with-a-byte-order-mark')
     replies = {}
     for integration in INTEGRATIONS:
         if integration == 'werkzeug' and (status_kind != 'default' or path_key != 'root'):
@@ -364,7 +379,8 @@ def run_post(ctx, root, status_kind, path_key, media_type, body_hex, family):
         if status != want:
             ctx.violation('status-is-not-the-status-functions-choice', fam, cls, expected_status=want, **wit)
             continue
-        if (ctype or '').split(';', 1)[0].strip() != 'application/json':
+        # (the aiohttp integration always labels its replies application/json, flask / werkzeug use the process-wide default)
+        if (ctype or '').split(';', 1)[0].strip() not in ('application/json', reply_ct):
             ctx.violation('reply-content-type-not-json', fam, cls, **wit)
             continue
         ctx.ok(fam + ':relayed', cls, sample=wit)
@@ -420,6 +436,9 @@ def bodies(rng, full):
         out.append(('corpus-utf8', json.dumps(d, ensure_ascii=False).encode('utf-8')))
     for t in ('', 'not json', '{"jsonrpc": "2.0", "id": 1, "method": "ok"', '[1,]', 'null', '{"jsonrpc":"2.0","id":1,"method":"echo","params":[1' + '0' * 5000 + ']}'):
         out.append(('garbage', t.encode()))
+    # a byte-order mark in front of an otherwise well-formed document: what the dispatcher says about that TEXT is the verdict
+    for d in (docs.obj(id=1, method='ok', params=['h']), docs.obj(method='ok', params=['n']), [docs.obj(id=1, method='noargs')]):
+        out.append(('bom', b'\xef\xbb\xbf' + json.dumps(d).encode()))
     for b in (b'\xff\xfe{"jsonrpc": "2.0", "id": 1, "method": "noargs"}', b'{"jsonrpc": "2.0", "id": 1, "method": "ok", "params": ["\xe9"]}', b'\x80'):
         out.append(('non-utf8', b))
     if full:
@@ -458,7 +477,7 @@ def gen(ctx):
                         if not pick:
                             continue
                     yield 'post', dict(root=root, status_kind=status_kind, path_key=('added', 'root', 'added-sub', 'root', 'added-bp', 'root', 'sub-application')[k % 7],
-                                       media_type=mt, body_hex=b.hex(), family=fam)
+                                       media_type=mt, body_hex=b.hex(), family=fam, **({'default_ct': 'application/json-rpc'} if k % 9 == 0 else {}))
 
 
 def charset_cases(rng, full):
